@@ -61,6 +61,30 @@ def _oracle(ctx, area, n, label):
                                    "replay": ctx._write_replay(rep), "concrete": True})
 
 
+_FAM = ["ContainsPoint", "MatchedContainsPoint", "Intersects", "MatchedIntersects", "ContainsRect", "MatchedContainsRect",
+        "ContainedByRect", "MatchedContainedByRect"]
+_SEP = {}
+
+
+def _sep(o):
+    """Audit 7 / M3: the model has two generic traversals for the sixteen Go query functions, so which predicate pair
+    each function uses is tied by the stream alone.  For every probe line (model output: 8 pairs `bool ids`) count, for
+    every pair of families, whether their Find* lists differ and whether their boolean answers differ: a slip that gives
+    one function the predicate pair of another shows exactly on those lines.  The counts go into the evidence
+    (query_separation); every one of the 2 x 28 pairs must be hit (the corpus quadtree.sixteen.ops guarantees it)."""
+    w = o.split()
+    if len(w) != 16 or any(x not in ("T", "F") for x in w[0::2]):
+        return
+    for a in range(8):
+        for b in range(a + 1, 8):
+            if w[2 * a + 1] != w[2 * b + 1]:
+                k = "Find%s|Find%s" % (_FAM[a], _FAM[b])
+                _SEP[k] = _SEP.get(k, 0) + 1
+            if w[2 * a] != w[2 * b]:
+                k = "%s|%s" % (_FAM[a], _FAM[b])
+                _SEP[k] = _SEP.get(k, 0) + 1
+
+
 class _Tagger:
     """Classifies every line of the quadtree stream by its role in its history (the distribution goes into the
     evidence as `tags`): what the generator actually produced, judged from the lines alone."""
@@ -97,6 +121,7 @@ class _Tagger:
         if w[0] == "clear":
             self.stored = {}
         if w[0] == "probe":
+            _sep(o)
             hits = o.split()[1::2]
             return "probe all-empty" if all(h == "-" for h in hits) else "probe"
         return w[0]
@@ -135,6 +160,7 @@ class _WrapTagger:
                 self.cls = k
             return "w ins " + k
         if w[0] == "probe" and len(w) == 9:
+            _sep(o)
             q = self.kind(*[int(v) for v in w[3:7]])
             return "w probe history-in-%s query-%s" % (self.cls, "safe" if q != "wraps" else "wraps")
         return "w " + w[0]
@@ -173,11 +199,13 @@ def run(ctx):
         "unions/halvings/sums of the quadtree are exact (dyadic inputs; there the guard of Reorganize is always true, "
         "C07.reorganize_guard_exact). Under ROUNDING: C07.abs_run_machine proves Size/All for the IEEE-double instance "
         "QT.instF64 itself (no law of the arithmetic is needed); C07.queries_any_arithmetic / _matched / "
-        "queries_hist_any_arithmetic prove the queries for ANY linearly ordered coordinate type with arbitrary +,- "
-        "(geom's predicates only compare the computed X, Y, Right(), Bottom()): point and intersection queries "
-        "unconditionally, FindContainsRect when the (non-empty) query has X < Right() and Y < Bottom() as computed, "
-        "FindContainedByRect when the stored rectangles have. Assumed: float64 comparisons on non-NaN values are a linear "
-        "order, and core Lean's Float (opaque to the logic) computes like Go's float64 - the latter is what area "
+        "queries_hist_any_arithmetic prove the queries for ANY coordinate type with arbitrary +, -, min, max whose <= and < "
+        "satisfy the three transitivity laws QT.OrdLaws (no antisymmetry, no totality: geom's predicates only compare the "
+        "computed X, Y, Right(), Bottom()): point and intersection queries unconditionally, FindContainsRect when the "
+        "(non-empty) query has X < Right() and Y < Bottom() as computed, FindContainedByRect when the stored rectangles "
+        "have; C07.queries_float64 is that statement about the Float instance the driver runs. Assumed: OrdLaws Float "
+        "(IEEE-754 comparisons are transitive in this sense for all doubles, NaN and signed zeros included; Lean's Float "
+        "is opaque to the logic), and that core Lean's Float computes like Go's float64 - the latter is what area "
         "`quadfloat` checks line by line (histories over non-dyadic floats, probes at and one ulp around the "
         "right/bottom edges, plus the exact histories of area quadtree once more through the Float instance). "
         "Independent of any model, the implementation-side oracle `floatscan` compares Size/All and all 16 queries "
@@ -216,8 +244,9 @@ def run(ctx):
         "200), int64_fuel_suffices the machine-integer histories inside the box; fuel_suffices_rat bounds the depth of "
         "every exact-rational history by j whenever box width < smallest item width * 2^j, fuel_irrelevant_rat makes "
         "the fuel unobservable there; the IEEE-double histories run with fuel 2300 (halving a double reaches 0 after about 2100 levels) "
-        "and have no fuel theorem. In every case the driver additionally tests Tree.fuelOK at run time (out-of-fuel "
-        "against a live implementation is a mismatch)",
+        "and have no a-priori bound. In every case the driver tests Tree.fuelOK after every line (out-of-fuel against a "
+        "live implementation is a mismatch) and C07.fuel_test_sound makes that test sound for every instance: if it "
+        "passes after every prefix the run equals the run with any larger fuel",
         "contract: abs_run ... find*_eq_filter fix ONE bounds function per history (OpOK); the package only demands that "
         "Bounds() stays the same WHILE a node is stored, and abs_run_hist / queries_hist / threshold_reorganize_invisible "
         "are stated under that history-dependent contract (HistOK; OpOK is the special case hist_of_opOK). The harness "
@@ -238,11 +267,23 @@ def run(ctx):
                      "!= impl on this history; inside the +-2^60 box C07.int64_* carries the linear-scan theorems over")
     ctx.diff(area="quadfloat", driver="drv_c07", n={"quick": 80000, "thorough": 800000}, stateful=True, timeout=300,
              trivial=lambda l, o: o == "ok",
-             tagger=lambda l, o: "d " + (l.split()[0] if not (l.startswith("probe") and all(h == "-" for h in o.split()[1::2]))
-                                         else "probe all-empty"),
+             tagger=lambda l, o: (_sep(o) if l.startswith("probe") else None) or
+             "d " + (l.split()[0] if not (l.startswith("probe") and all(h == "-" for h in o.split()[1::2]))
+                     else "probe all-empty"),
              theorem="model at IEEE doubles (QT.instF64 = geom/quadtree transcription at core Lean's Float, rounding like "
                      "Go float64; Size/All: C07.abs_run_machine, queries: C07.queries_any_arithmetic for an abstract rounded "
                      "arithmetic) != impl on this history (non-dyadic floats, or an exact dyadic history of area quadtree)")
+    if _SEP:
+        want = ["%s%s|%s%s" % (pre, _FAM[a], pre, _FAM[b]) for pre in ("Find", "") for a in range(8) for b in range(a + 1, 8)]
+        ctx.extra["query_separation"] = {k: _SEP.get(k, 0) for k in want}
+        ctx.extra["query_separation_min"] = min(ctx.extra["query_separation"].values())
+        ctx.rules.append("query_separation: number of probe lines on which two of the 16 query functions give different "
+                         "answers (lists for the Find* functions, truth values for the boolean ones), per pair; a function "
+                         "that used another function's predicate pair would differ from the model on those lines")
+        missing = [k for k in want if not _SEP.get(k)]
+        if missing and not ctx.replay:
+            ctx.violations.append({"kind": "coverage", "concrete": False,
+                                   "what": "the stream no longer separates the query functions " + ", ".join(missing[:6])})
     _oracle(ctx, "floatscan", {"quick": 6000, "thorough": 150000},
             "quadtree vs linear scan with the library's geom predicates on rounding float64 coordinates")
     _oracle(ctx, "intwrap", {"quick": 20000, "thorough": 400000},
